@@ -1,7 +1,30 @@
 """C15 -- every message reaches the peer completely."""
 import oracles, scen
 from units.mk import Unit, COMMON
+
+
+def tcp_part(ctx):
+    """C15 names it explicitly: a large push over real TCP with a transport timeout and small socket buffers arrives intact, and the
+    count bulk_write reports is the number of bytes the peer really gets for that call (the loop in _send relies on it)."""
+    from units import c18
+    for kind in ("sync", "async"):
+        f = c18.check_write(ctx, kind, 1 << 20)
+        if f:
+            ctx.report.prop_failures.append(dict(f, no_shrink=True, replay_with="c18"))
+    for impl in ("sync", "async"):
+        f = c18.check_session(ctx, impl, ctx.rng.getrandbits(32), 0)
+        if f:
+            ctx.report.prop_failures.append(dict(f, no_shrink=True, replay_with="c18"))
+
+
+def _replay_c18(ctx, fl):
+    from units import c18
+    return c18.replay(ctx, dict(failure=fl))
+
+
+from units import mk as _mk
+_mk.REPLAYERS["c18"] = _replay_c18
 Unit([("shortwrite", scen.gen_short_writes, 1)], (oracles.o_c02, oracles.o_c07, oracles.o_c01, oracles.o_c05, oracles.o_c04) + COMMON,
      "every scenario family over transports that accept {1 byte, 1..25 bytes, a header split k/24-k, random, everything-but-report-None} per write call; "
      "the bytes the peer received must parse as whole well-formed messages (Lean parser) and carry exact file contents/results. Non-trivial/distinct as for C01.",
-     120, 3000).export(globals())
+     120, 3000, extra_run=tcp_part).export(globals())
